@@ -23,13 +23,13 @@
 
 namespace bxdecay0 {
 
-  const std::map<std::string, bool> & traces()
+  namespace {
+  std::map<std::string, bool> _build_traces()
   {
     static bool devel = false;
     // devel = true;
-    static std::map<std::string, bool> _t;
-    BXDECAY0_VERIF_YIELD("traces:pre_check");
-    if (_t.empty()) {
+    std::map<std::string, bool> _t;
+    {
       BXDECAY0_VERIF_YIELD("traces:filling");
       if (devel) {
         std::cerr << "[devel] bxdecay0::traces: "
@@ -96,6 +96,15 @@ namespace bxdecay0 {
         }
       }
     }
+    return _t;
+  }
+  } // namespace
+
+  const std::map<std::string, bool> & traces()
+  {
+    BXDECAY0_VERIF_YIELD("traces:pre_check");
+    // filled exactly once, by the (thread-safe) initialisation of the function-local static
+    static const std::map<std::string, bool> _t = _build_traces();
     return _t;
   }
 
